@@ -345,6 +345,12 @@ def ghint_hint_validation(ctx):
             val = [not val[0]]
         dom = ibb not in reach(b, [b.term(list(nxt)[0])["t"]] if nxt else [0], blocked_edges=lambda x: x.kind == "unwind" or (x.src, x.dst) == (e.src, e.dst), blocked_blocks=set())
         r.add(f, "keydir.insert only on the accepting edge of the extent test", dom, where(b, ibb))
+        # a rejected entry has no effect at all: the per-file statistics are touched only on the accepting edge too
+        # (a phantom live key keeps the file's fragmentation below the threshold for ever: its garbage is never merged)
+        head = [b.term(list(nxt)[0])["t"]] if nxt else [0]
+        for _, sbb, stt in calls_in([b], "storage::bitcask::log::LogStatistics::add_live", "storage::bitcask::log::LogStatistics::add_dead", "storage::bitcask::log::LogStatistics::overwrite"):
+            sdom = sbb not in reach(b, head, blocked_edges=lambda x: x.kind == "unwind" or (x.src, x.dst) == (e.src, e.dst), blocked_blocks=set())
+            r.add(f, "%s only on the accepting edge of the extent test" % (strip_generics(stt.get("callee")) or "").split("::")[-1], sdom, where(b, sbb), "" if sdom else "a hint entry that is rejected (it points beyond the end of its data file) is still booked in the file's statistics: keys that do not exist count as live")
         # normalise: accept iff end <= len
         end_left = mentions_entry_extent(o[2]) and not mentions_len_of_datafile(o[2])
         op = o[1] if end_left else {"Le": "Ge", "Lt": "Gt", "Ge": "Le", "Gt": "Lt"}[o[1]]
